@@ -29,6 +29,10 @@ CLAIMED['C15'] = dict(
    text="Coq theorems (props/C15.v, closed), each by induction over EVERY history of run/call/evaluate/clear_output/set_input/queue_input/clear_input operations: raw output = concatenation of the texts written since the last clear; line view = concatenation over non-silent executions of [l.rstrip() for l in text.rstrip().split('\\n')] (a silent execution adds nothing); each execution's record holds its own text; input() is FIFO, each element once, then '0'. Hand model (state machine) tied by correspondence: the real sandbox is observed after every operation of generated histories, and an oracle written from the property statement checks the observations directly.",
    note="Trusted: Coq kernel; the abstraction of a student program to its event list (writes/prompts), computed with CPython's print semantics by the harness; is_space table (Python whitespace, exercised by the generator alphabet). Model of the repaired append_output guard. Callable input sources, real_io mode and MAXIMUM_INPUTS are not modelled.",
    technique="Coq proof by induction over operation histories + state-machine correspondence", design="3/C15")
+CLAIMED['C17'] = dict(
+   text="Coq theorems (props/C17.v, closed), for EVERY whole-line marker predicate and every file text: the split is lossless (chunks concatenate back to the file), chunks alternate code/marker with an odd count, section k is exactly chunk 2k (or the prefix up to it in cumulative mode), every character of an independent section sits on whole-file line offset + its line in the section (offset = newlines before the chunk; 0 and a prefix in cumulative mode), a request past the end yields the feedback and never fails, and after ANY sequence of separate/next/stop/resolve/set_source/restore the main code is the original whenever no substitution is outstanding. Tie: correspondence of the state machine with the real section machinery after every operation and with re.split; an oracle plants one diagnostic per tool (syntax error, uninitialised read, 1/0, error inside a called function) at a known file line and checks location.line and traceback text.",
+   note="Trusted: Coq kernel; hand model of re.split with ONE whole-match capturing group under MULTILINE (validated against re.split on every generated file; patterns that are not whole-line predicates are outside the model); that each tool adds the offset (report_line) is a definitional table in Coq - its tie to syntax_error / TifaCore.locate / ExpandedTraceback / runtime location is the planted-diagnostic oracle only. Model of the repaired code (three fix commits).",
+   technique="Coq proof (list/position lemmas, stack invariant by induction over operations) + state-machine correspondence", design="3/C17")
 REASONS = {}
 DEFAULT_REASON = "check not built yet (work in progress; see DESIGN.md section 6 for the order)"
 
